@@ -147,17 +147,23 @@ def entry (tab : List (String × List (String × Generated.Ext ℝ))) (col key :
   | some (.fin x) => some x
   | _ => none
 
-/-- the generated copy of `all_constants` (what `constants.py` says now) is the hand model's table, entry by entry -/
-theorem constants_eq (g : Group) :
-    constKeys.map (entry Generated.all_constants (groupName g)) = (consts g : Consts ℝ).toList := by
-  cases g <;>
-    simp [constKeys, groupName, entry, Generated.all_constants, consts, Consts.toList, List.lookup] <;>
-    norm_num
+/-- the keys of `all_constants` that enter C09 (`Guideline.row` of `Proofs/C09.lean`, same order) -/
+def c09Keys : List String :=
+  ["E", "a_M", "b_M", "d_1", "d_2", "a_PZ_RAM", "b_PZ_RAM", "a_PD_RAM", "b_PD_RAM",
+   "d_RAJ", "a_PZ_RAJ", "b_PZ_RAJ", "a_PD_RAJ", "b_PD_RAJ"]
 
-/-- … and every key of the source table is one of these keys (no entry of the source is left out of the comparison) -/
-theorem constants_keys_complete (g : Group) :
-    ((Generated.all_constants (α := ℝ)).lookup (groupName g)).map
-      (fun rows => (rows.map Prod.fst).all (fun k => constKeys.contains k)) = some true := by
-  cases g <;> simp [groupName, Generated.all_constants, List.lookup, constKeys]
+/-- the generated copy of `all_constants` (what `constants.py` says now) carries, for the keys C09 reads, the values of the
+hand model (which `C09.constants_eq_guideline` ties to the guideline's table).  The comparison of the WHOLE table
+(`constants_eq`, `constants_keys_complete`) lives in `Proofs/BridgeConstsAll.lean`: the remaining keys (`k_st`, `a_RP`, `f_25…`,
+…) are read by the assessment (C10) only, an edit there is not a C09 matter. -/
+theorem constants_eq_c09 (g : Group) :
+    c09Keys.map (entry Generated.all_constants (groupName g)) =
+      [some (consts g : Consts ℝ).E, some (consts g).a_M, some (consts g).b_M, some (consts g).d_1, some (consts g).d_2,
+       some (consts g).a_PZ_RAM, some (consts g).b_PZ_RAM, some (consts g).a_PD_RAM, some (consts g).b_PD_RAM,
+       some (consts g).d_RAJ, some (consts g).a_PZ_RAJ, some (consts g).b_PZ_RAJ, some (consts g).a_PD_RAJ,
+       some (consts g).b_PD_RAJ] := by
+  cases g <;>
+    simp [c09Keys, groupName, entry, Generated.all_constants, consts, List.lookup] <;>
+    norm_num
 
 end PylifeVerif.Bridge
